@@ -187,6 +187,49 @@ def sink_contracts():
             'all([e[1][0] == result for e in calls if e[0] == '
             '"contract:yaqlized._auto_yaqlize"])'],
         serves=('C07',), native=False))
+    # operands of a host method call: evaluated once each, in written
+    # order (positional before the keyword ones that follow them), all of
+    # them BEFORE the method runs
+    class cb:
+        is_factory = True
+
+        def __call__(self, name, path):
+            f = TFunc(3).fresh(name)
+            path.ghost[name] = f
+            return f
+
+    class expr2:
+        is_factory = True
+
+        def __call__(self, name, path):
+            a0, a1 = cb()('A0', path), cb()('A1', path)
+            kc = obj('yaql.language.expressions.KeywordConstant',
+                     value='k', uses_receiver=False)('KC', path)
+            mr = obj('yaql.language.expressions.MappingRuleExpression',
+                     source=None, destination=None,
+                     uses_receiver=False)('MR', path)
+            mr.fields['source'] = kc
+            mr.fields['destination'] = a1
+            e = obj('yaql.language.expressions.Function', name=TStr,
+                    args=None, uses_receiver=True)(name, path)
+            e.fields['args'] = (a0, mr)
+            return e
+    EV = '[i for i, e in enumerate(calls) if e[0] == %s.name]'
+    cs.append(Contract(
+        Z + 'op_dot', name='yaqlized.op_dot/operands',
+        params=dict(receiver=TVal, expr=expr2(), context=TVal, engine=TVal),
+        # (a host-configured argument mapping may hand back an unhashable
+        # keyword name: host configuration domain, not under contract)
+        raises={'TypeError': 'True'},
+        ensures=[
+            'len(%s) == 1 and len(%s) == 1' % (EV % 'A0', EV % 'A1'),
+            '%s[0] < %s[0]' % (EV % 'A0', EV % 'A1'),
+            # the method itself is the last host event but for the
+            # auto-yaqlization of its result
+            'all([i > %s[0] for i, e in enumerate(calls) if '
+            'e[0].startswith("call")])' % (EV % 'A1'),
+            'len([e for e in calls if e[0].startswith("call")]) == 1'],
+        serves=('C11', 'C07'), native=False))
     cs.append(Contract(
         Z + '_auto_yaqlize', params=dict(value=TVal, settings=TVal),
         ensures=[
@@ -295,7 +338,13 @@ def settings_contracts():
                     '(x in result["whitelist"]) == (truthy(whitelist) and '
                     'x in whitelist)',
                     'result["attributeRemapping"] == (attribute_remapping '
-                    'if attribute_remapping else {})'] + [
+                    'if attribute_remapping else {})',
+                    # snapshots taken NOW (sets of their own): a one-shot
+                    # iterable handed in by the host is not what a later
+                    # name check walks, and a later change of the host's
+                    # list changes nothing
+                    'isinstance(result["blacklist"], "Set") and '
+                    'isinstance(result["whitelist"], "Set")'] + [
                     '%s in result["blacklist"]' % t for t in tg],
                 serves=('C07',), native=False))
     return cs
